@@ -345,7 +345,7 @@ pub fn run(ctx: &Ctx) -> Outcome {
                     }
                     if let Some(s) = snap {
                         if !s.peers.is_empty() || s.statuses.iter().any(|x| *x != Status::Missing) {
-                            ctx.violation("reservation-survives-holder-over-real-socket", format!("a peer that dialled in, was asked for piece 3 and ended its stream {} is still listed / its piece still reserved 1.5 s later: peers {:?}, statuses {:?}", what, s.peers.iter().map(|p| p.addr.clone()).collect::<Vec<_>>(), s.statuses), json!({"scenario": "dial-in-holder", "case": what, "history": []}));
+                            ctx.violation("reservation-survives-holder-over-real-socket", format!("a peer that dialled in, was asked for piece 3 and ended its stream {} is still listed / its piece still reserved 4 s later: peers {:?}, statuses {:?}", what, s.peers.iter().map(|p| p.addr.clone()).collect::<Vec<_>>(), s.statuses), json!({"scenario": "dial-in-holder", "case": what, "history": []}));
                         }
                     }
                 }
